@@ -8,7 +8,7 @@ from __future__ import annotations
 
 import numpy as np
 
-from .. import games, pm, seams, simpool
+from .. import games, pm, seams, simpool, simthreads
 from .. import prelude
 from ..core import Sim
 
@@ -29,7 +29,7 @@ ASSUMPTIONS = ["rows after `done` are padding and are not compared",
                "families with per-process state (graph-weight-distribution family, round-robin factory) are not "
                "used for clauses (b) and (c)", "SimPool models process pools at task granularity; worker death "
                "(which hangs the real Pool.map) is not injected"]
-PROBES = ["evaluation_after_an_interrupted_one", "same_configuration_under_two_gap_functions", "source_A", "source_B", "random_solver", "chunk_with_2plus_tasks", "worker_ran_2plus_chunks",
+PROBES = ["evaluation_overlapped_with_another_threads_evaluation", "evaluation_after_an_interrupted_one", "same_configuration_under_two_gap_functions", "source_A", "source_B", "random_solver", "chunk_with_2plus_tasks", "worker_ran_2plus_chunks",
           "more_workers_than_chunks", "stopped_by_done_before_limit", "calibrated_against_real_pool",
           "fresh_image", "fork_image"]
 TIERS = {
@@ -135,7 +135,8 @@ def run(sim: Sim) -> None:
            "budget": budget, "seed": seed, "env_source": source, "key": key}
     sim.config.update(ctx)
 
-    def one_eval(processes: int, image: str, gap_name_: str = gap_name, tear_at: int | None = None):
+    def one_eval(processes: int, image: str, gap_name_: str = gap_name, tear_at: int | None = None,
+                 overlapped: bool = False):
         gap_ = GAP_FUNCTIONS[gap_name_]
         inst = ModelInstance(number_of_players=n, game_class=comp_name, game_generator=key or "factory",
                              gap_function=gap_name_, run_steps_limit=budget, parallel_environments=processes,
@@ -150,7 +151,26 @@ def run(sim: Sim) -> None:
             if tear_at is not None:
                 return seams.run_torn(lambda: evaluate(solver.next_step, factory, reps, limit, gap_, processes,
                                                        pm.record_reset), tear_at)
-            E, A = evaluate(solver.next_step, factory, reps, limit, gap_, processes, pm.record_reset)
+            if overlapped:
+                # another caller thread runs an evaluation of its own (other solver, other games, other limit, no
+                # hidden randomness) while the judged one runs; pre-emption between package lines as the tape says
+                n2 = sim.pick([3, 4], "other-eval-n")
+                vals2 = [games.draw_game(sim, n2, "SA")[0] for _ in range(2)]
+                factory2 = pm.PrivateEnvFactory(n2, "superadditive", GAP_FUNCTIONS["l1_norm"], None, 0, values_list=vals2)
+                solver2 = SOLVERS[sim.pick(["largest", "greedy"], "other-eval-solver")](ModelInstance(
+                    number_of_players=n2, seed=1, unique_name="sim-other"))
+                reps2, limit2 = 1 + sim.choose(3, "other-eval-reps"), 1 + sim.choose(3, "other-eval-limit")
+
+                def other_evaluation():
+                    try:
+                        evaluate(solver2.next_step, factory2, reps2, limit2, GAP_FUNCTIONS["l1_norm"], 1)
+                    except Exception:  # not judged
+                        pass
+                E, A = simthreads.interleave(sim, [
+                    lambda: evaluate(solver.next_step, factory, reps, limit, gap_, processes, pm.record_reset),
+                    other_evaluation])[0]
+            else:
+                E, A = evaluate(solver.next_step, factory, reps, limit, gap_, processes, pm.record_reset)
         return np.array(E), np.array(A), list(pm.CHANNEL)
 
     prelude.warm_process(sim)
@@ -171,8 +191,11 @@ def run(sim: Sim) -> None:
                             {**ctx, "gap": other, "pass": "other gap first"})
         sim.probe("same_configuration_under_two_gap_functions")
     sim.op("evaluate", 1)
+    overlapped = sim.flip(1, 6, "overlapping-evaluation")
     with sim.guard("C12.evaluate_raised"):
-        E1, A1, ch1 = one_eval(1, "fork")
+        E1, A1, ch1 = one_eval(1, "fork", overlapped=overlapped)
+    if overlapped:
+        sim.probe("evaluation_overlapped_with_another_threads_evaluation")
     hidden1 = replay_trajectories(sim, E1, A1, ch1, n, comp_name, gap, budget, reps, limit, {**ctx, "processes": 1})
     if continuous:
         check_independent(sim, hidden1, {**ctx, "processes": 1}, source, random_solver, 1)
